@@ -47,7 +47,7 @@ def plan(tier, seed):
     n = 240 if tier == "quick" else 2500
     for i in range(n):
         be = ("numpy", "jax", "c")[i % 3]
-        specs.append({"klass": "random", "i": i, "backend": be, "orders": i < 9 or i % 10 == 0, "fill": i >= 12})
+        specs.append({"klass": "random", "i": i, "backend": be, "orders": i < 9 or i % 10 == 0, "fill": i >= 12, "remove_unused": i % 4 == 1})
     for s in specs:
         s["prop"] = ID
         s.setdefault("soft_timeout", 400)
@@ -225,7 +225,8 @@ def run_case(spec, ctx):
     else:
         # int literals, Mod and conditionals with folded constants are C02/C01 subjects: keep expressions simple, shapes rich
         prof = Profile(mod=False, int_literals=False, hard_lits=False, ccond=False, funcs=["exp", "sin", "cos", "atan", "abs", "sqrt"], pow=False)
-        text = models.gen_model(rng, prof, depth=2, n_states=rng.choice([2, 3, 4, 5, 6, 8]), n_inter=rng.choice([2, 4, 6, 10]), n_comp=rng.choice([1, 2, 3])).render(rng)
+        kw = {"shape": "unused"} if spec.get("remove_unused") else {}
+        text = models.gen_model(rng, prof, depth=2, n_states=rng.choice([2, 3, 4, 5, 6, 8]), n_inter=rng.choice([2, 4, 6, 10]), n_comp=rng.choice([1, 2, 3]), **kw).render(rng)
     out["hash"] = models.structural_hash(text) + ":" + be
     ref = RefModel.from_text(text)
     if ref.ill_formed():
@@ -237,7 +238,7 @@ def run_case(spec, ctx):
         return out
     ode = lo.value
     sch = ["explicit_euler", "generalized_rush_larsen"]
-    oc = B.generate(be, ode, schemes=sch)
+    oc = B.generate(be, ode, schemes=sch, remove_unused=bool(spec.get("remove_unused")))
     if not oc.ok:
         out.update(status="skipped", reason="module cannot be generated (C01-C03): " + oc.describe()[:100])
         return out
